@@ -552,8 +552,9 @@ def est_rules(ctx):
     # EST-GUARD on the feedback loop
     f = ctx.repo.function(PUBLIC[0])
     loop = [s for s in f.node.body if isinstance(s, ast.While)][0]
-    guards = [s for s in loop.body if isinstance(s, (ast.If, ast.While)) and
-              'measurement_times[' in norm_text(s.test)]
+    from .sched import _models, FB
+    (M,) = _models(ctx, (FB,))
+    guards = M.guards
     ctx.need(len(guards) == 1, 'feedback measurement-due block not found')
     g = guards[0]
     inside = {id(n) for n in ast.walk(g)}
